@@ -30,6 +30,12 @@ SINK_METHODS = ('byte', 'word', 'dword', 'qword', 'vec')
 INTERIOR = ('core::cell::', 'core::sync::atomic', 'std::sync', 'std::cell', 'alloc::rc::Rc', 'alloc::sync::Arc')
 
 def run(ctx, rep):
+    _run(ctx, rep)
+    if ctx.tier == 'thorough':
+        import witness
+        witness.check(rep, ctx, ['C14SerialiserCannotMutate'])
+
+def _run(ctx, rep):
     f = ctx.facts
     # ---------------- purity
     rep.ob('purity', 'no statics', not f.statics, 'the crate defines statics: %s' % [s['path'] for s in f.statics])
